@@ -144,7 +144,8 @@ fn run_script(dir: &str, script: &[Value], bid: usize, sch: &Arc<Sched>) -> Vec<
 				let _ = api.stop_updater();
 				log(json!({"ev": "stop"}), &mut out);
 			}
-			"pass" => {
+			c @ ("pass" | "pass_stop") => {
+				let stop_after = c == "pass_stop";
 				// let the running thread finish the pass it is in
 				if let Some(t) = runner {
 					let mut failed = false;
@@ -157,6 +158,12 @@ fn run_script(dir: &str, script: &[Value], bid: usize, sch: &Arc<Sched>) -> Vec<
 						}
 						released += 1;
 						if released == n {
+							if stop_after {
+								// stop_updater right after the last section was released: it lands in the
+								// thread's sleep unless the thread is slower than we are
+								std::thread::sleep(Duration::from_millis(12));
+								let _ = api.stop_updater();
+							}
 							break;
 						}
 						let th0 = updater_threads();
@@ -178,8 +185,17 @@ fn run_script(dir: &str, script: &[Value], bid: usize, sch: &Arc<Sched>) -> Vec<
 						let _ = live0;
 						let th0 = updater_threads();
 						let gone_or_back = wait_until(|| sch.hits.lock().unwrap()[t - 1] > seen || updater_threads() < th0, 3000);
-						if gone_or_back && sch.hits.lock().unwrap()[t - 1] > seen {
+						// the flag is read once, at the end of the pass: the thread that exits saw the stop, the one
+						// that sleeps did not - that is the order of the two events
+						let slept = gone_or_back && sch.hits.lock().unwrap()[t - 1] > seen;
+						if stop_after && !slept {
+							log(json!({"ev": "stop"}), &mut out);
+						}
+						if slept {
 							log(json!({"ev": "end", "t": t, "to": "sleep"}), &mut out);
+							if stop_after {
+								log(json!({"ev": "stop"}), &mut out);
+							}
 							log(json!({"ev": "wake", "t": t}), &mut out);
 							log(json!({"ev": "begin", "t": t}), &mut out);
 							released = 0;
